@@ -4,7 +4,8 @@ from vlib import core
 
 WIDTH = {"i8": 1, "u8": 1, "i16": 2, "u16": 2, "i32": 4, "u32": 4, "i64": 8, "u64": 8, "itoa": 4, "utoa": 4, "ltoa": 8, "ultoa": 8}
 DPR = {"dec_i8": 1, "dec_i16": 2, "dec_i32": 4, "dec_i64": 8, "dec_il": 8, "dec_u8": 1, "dec_u16": 2, "dec_u32": 4, "dec_u64": 8, "dec_uc": 1, "dec_ul": 8,
-       "hex_u8": 1, "hex_u16": 2, "hex_u32": 4, "hex_u64": 8, "bin_u8": 1, "bin_u16": 2, "bin_u32": 4, "bin_u64": 8}
+       "hex_u8": 1, "hex_u16": 2, "hex_u32": 4, "hex_u64": 8, "bin_u8": 1, "bin_u16": 2, "bin_u32": 4, "bin_u64": 8,
+       "dec_us": 2, "dec_ui": 4, "hex_c": 1, "hex_uc": 1, "hex_sc": 1, "hex_us": 2, "hex_ss": 2, "hex_ui": 4, "hex_si": 4, "hex_ul": 8, "hex_sl": 8, "hex_ull": 8, "hex_sll": 8, "hex_ptr": 8}
 DIG = "0123456789abcdefghijklmnopqrstuvwxyz"
 
 
@@ -96,6 +97,10 @@ def check(ctx):
             lines.append("Dpr %s %s" % (fn, fmt(le(v, w))))
             if rng.random() < 0.2:     # the same print with a debug sink that itself prints numbers after every character it receives
                 lines.append("Dprn %s %s" % (fn, fmt(le(v, w))))
+    # memory images of 0..40 bytes (and 255 / 256 / 300 bytes) through debug_writehex / debug_writebin and their reversed forms
+    for n in list(range(0, 12)) + [16, 31, 40, 255, 256, 300]:
+        for fn in ("mem_hex", "mem_hexr", "mem_bin", "mem_binr"):
+            lines.append("Dpr %s %s" % (fn, fmt([rng.choice([0, 255, 128, 1, rng.randrange(256)]) for _ in range(n)])))
     script = []
     for i, ln in enumerate(lines):
         if i % 500 == 0: script.append("R")
